@@ -232,6 +232,13 @@ def run_impl(driver, case):
                 x.fix_nan()
         except Exception:
             pass
+        # ... and the in-place division by an all-invalid operand (the returned tensor is invalid everywhere; no other tensor is)
+        for x in env[:len(case["inputs"])]:
+            try:
+                other = driver.MT(driver.torch.full_like(x.tensor, 2.0), driver.torch.zeros_like(x.mask))
+                x.div(other, in_place=True)
+            except Exception:
+                pass
         out["alias"] = [i for i in fresh if driver.snap(env[i]) != regs[i]]
     # the public in-place methods themselves, on the inputs: x.pow_(2), x.tensor.add_(1), x.fix_nan() leave v*v + 1 with NaN (and
     # nothing else - infinities stay) replaced by 0, and the validity mask untouched
